@@ -158,9 +158,13 @@ def _spec_paths(repo, fx):
             if K is not None:
                 out["stores"].append((kind, e, K, V, st.cond[:e.ncond], st))
                 out["nstores"][kind] = out["nstores"].get(kind, 0) + 1
-        dups = [t for (t, v) in st.cond if v is True and t[0] == "cmp" and t[1] == "in" and t[3] in _containers("attr") + _containers("env") + [st.env.get("self.env")]]
+        def _disj(t):
+            return [x for a in t[1:] for x in _disj(a)] if t[0] == "or" else [t]
+        dups = [d for (t, v) in st.cond if v is True for d in _disj(t)
+                if d[0] == "cmp" and d[1] == "in" and d[3] in _containers("attr") + _containers("env") + [st.env.get("self.env")]]
         if dups:
             out["dup_true"].append((path, st, [fx.node]))
+            out.setdefault("dup_terms", []).append((dups, st))
         unds = [t for (t, v) in st.cond if v is True and ((t[0] == "cmp" and t[1] == "eq" and t[2][0] == "idx" and t[2][2] == const(0) and t[3] == const("_"))
                                                          or (t[0] == "pcall" and isinstance(t[1], tuple) and t[1][0] == "meth" and t[1][2] == "startswith" and t[2] == (const("_"),)))]
         if unds:
@@ -199,6 +203,20 @@ def check(ctx: Ctx) -> None:
             ok = sp["cfg"].nodes[path[-1][0]].kind == "raise" and last and _is_exc(last[-1].value, "ValueError")
             if not ok:
                 ob.violation(fx, dups[0], "a repeated key is not rejected with ValueError", construct="duplicate key accepted")
+
+        # ... and only then: a key is refused as a duplicate only for being present in the container it would be stored in under
+        # the name it would be stored under (plain keys and env: names are two namespaces; `id=x//env:id=x` is a valid spec)
+        stored = set()
+        for (kind, ev, K, V, cond, st) in sp["stores"]:
+            stored.add((kind, K))
+        for (dups, st) in sp.get("dup_terms", []):
+            for t in dups:
+                kind = "env" if t[3] in _containers("env") + [st.env.get("self.env")] else "attr"
+                ok = (kind, t[2]) in stored
+                if not ok:
+                    ob.violation(fx, fx.node, f"a key is refused as a duplicate because {show(t[2])} is in {show(t[3])}, which is not where (or not the name under which) this "
+                                              "kind of key is stored: unique keys are rejected", construct=f"duplicate test {kind}:{show(t[2])} matches no store")
+                    break
 
     with ctx.obligation("C20.b", "text-identity") as ob:
         want = {"__eq__": ast.Eq, "__ne__": ast.NotEq}
